@@ -22,6 +22,24 @@ Inductive fop :=
 | FClose
 | FDiscard.
 
+(* ---- the blockstore's sticky write error (ReadWrite.writeErr) ---------------------------------- *)
+(* put_one records it in ws_roots (see Store.v); PutMany tests it after closed / finalized,
+   FinalizeReadOnly before anything else *)
+Definition bs_sticky (s : wstate) : bool :=
+  match ws_roots s with [[]] => true | _ => false end.
+Definition fbs_put_many (s : wstate) (blks : list (bytes * bytes)) : wstate * out :=
+  if ws_closed s || ws_finalized s then bs_put_many s blks
+  else if bs_sticky s then (s, OErr EOther)
+  else bs_put_many s blks.
+Definition fbs_finalize_ro (s : wstate) : wstate * out :=
+  if bs_sticky s then (s, OErr EOther) else bs_finalize_ro s.
+Definition fbs_finalize (s : wstate) : wstate * out :=
+  let '(s1, r1) := fbs_finalize_ro s in
+  let '(s2, r2) := bs_close s1 in
+  (s2, match r1 with ONil => r2 | e => e end).
+(* the sticky write error of a front-end: storage keeps it in ws_finalized *)
+Definition sticky (kn : N) (s : wstate) : bool := if kn =? 0 then bs_sticky s else ws_finalized s.
+
 Section Step.
   Variable hdrdec : bytes -> option (list bytes * N).
 
@@ -29,15 +47,15 @@ Section Step.
      | 3 storage on a plain io.Writer.  Same dispatch as RunStore.step. *)
   Definition fstep (kn : N) (s : wstate) (op : fop) : wstate * out :=
     match op with
-    | FPut c d => if kn =? 0 then bs_put_many s [(c, d)] else st_put s c d
-    | FPutMany bs => bs_put_many s bs
+    | FPut c d => if kn =? 0 then fbs_put_many s [(c, d)] else st_put s c d
+    | FPutMany bs => fbs_put_many s bs
     | FHas c => (s, if kn =? 0 then bs_has s c else st_has s c)
     | FGet c => (s, if kn =? 0 then bs_get s c else st_get s (kn =? 1) c)
     | FGetSize c => (s, bs_getsize s c)
     | FKeys => (s, bs_allkeys s)
     | FRoots => (s, if kn =? 0 then bs_roots hdrdec s else OKeys (ws_roots s))
-    | FFinalize => if kn =? 0 then bs_finalize s else st_finalize s
-    | FFinalizeRO => bs_finalize_ro s
+    | FFinalize => if kn =? 0 then fbs_finalize s else st_finalize s
+    | FFinalizeRO => fbs_finalize_ro s
     | FClose => bs_close s
     | FDiscard => bs_discard s
     end.
